@@ -792,6 +792,20 @@ class SercommEngine:
 				return None
 			return [rng.choice([0, 0, 1, 2, 5, 300]) for _ in range(3)]
 
+		backlog = 0
+		if rng.random() < (0.05 if thorough else 0.03):
+			# a long backlog: hundreds of tiny messages queued before the driver pulls the first
+			# octet (counters of queued messages narrower than the backlog show here)
+			dname = rng.choice(dirs)
+			snd, rcv = DIRS[dname]
+			backlog = rng.choice([255, 256, 256, 257, 300, 511, 512, 513])
+			for i in range(backlog):
+				spec = _spec_for(rng, rng.choice([0, 0, 1, 2]))
+				ops.append({"op": "send", "node": snd, "dlci": rng.choice(pool), "p": spec})
+				budget -= wire_cost(expand_payload(spec))
+				if i in (254, 255, 256) and rng.random() < 0.3:
+					ops.append({"op": "pump", "dir": dname, "k": rng.choice([1, 2, 7])})
+			ops.append({"op": "pumpf", "dir": dname})
 		guard = 0
 		while frames < max_frames and budget > 64 and guard < 1000:
 			guard += 1
@@ -847,7 +861,8 @@ class SercommEngine:
 				overlong += 1
 		return {"engine": "sercomm", "seed": seed,
 			"config": {"reg": reg, "avoid": avoid,
-				"profile": {"len": len_profile, "pump": pump_profile, "faults": sorted(k for k, v in fk.items() if v)}},
+				"profile": {"len": len_profile, "pump": pump_profile, "backlog": backlog,
+					"faults": sorted(k for k, v in fk.items() if v)}},
 			"ops": ops}
 
 	def simplify(self, plan):
